@@ -61,7 +61,7 @@ def run(ctx):
     obs = ctx.obs
     obs.extra['meta'] = META
     contracts.attach_all(obs, only={'_find_ocean_floor_indexes'})
-    total = ctx.n(1200, 30000)
+    total = ctx.n(1200, 50000)
     for case, rng in ctx.cases(total):
         conv = CONVS[case % len(CONVS)]
         spec = {'case': case, 'convention': conv}
@@ -217,7 +217,8 @@ def check_floor(obs, model, ds, snap, before, out, chosen, route, ns, conv):
             obs.cls('depth-variable-on-no-grid-not-asserted')
             continue
         axis = axes[info['var_axis'][name]]
-        mech = CASE_MECH if depthgen.case_variant_down(axis['attr']) else 'floor-value'
+        # the known mis-reading of a case-variant "down" spoils the whole DIMENSION (a twin coordinate on it included)
+        mech = CASE_MECH if any(depthgen.case_variant_down(a['attr']) for a in done_axes if a['dim'] == axis['dim']) else 'floor-value'
         if not obs.expect(name in out.data_vars, 'depth variable lost by ocean_floor', lambda: {'variable': name}, mech='depth-variable-lost'):
             continue
         want_dims, want = depthgen.floor_oracle(model, name)
